@@ -334,6 +334,8 @@ def gen_method(rng, used_names):
                 w = w + "_" + rng.choice(PARAM_WORDS)
             elif r < 0.52:
                 w = rng.choice(RAW_WORDS)
+            elif r < 0.62:
+                w = rng.choice(LOCAL_LIKE)
             if w not in pn:
                 break
         pn.add(w)
@@ -475,6 +477,59 @@ def corpus_fixed():
                     p["gname"] = ["T", "U", "V", "W"][gi]
                     gi += 1
     return [t0, t1, t2]
+
+
+# identifiers a user may well pick for a parameter and that generated code is likely to use itself;
+# the list actually used is this one plus what translate/macro_locals.py extracts from the macro
+# sources on every run
+LOCAL_LIKE = ["method", "parameters", "params", "call", "method_call", "reply", "result", "connection",
+              "conn", "chain", "stream", "error", "err", "socket", "this", "item", "value", "args",
+              "output", "replies", "interface", "name", "more", "oneway", "request"]
+RUST_KEYWORDS = {"self", "type", "fn", "in", "match", "move", "ref", "loop", "struct", "async", "await",
+                 "mod", "use", "let", "mut", "pub", "impl", "for", "if", "else", "enum", "trait", "where",
+                 "while", "as", "break", "const", "continue", "crate", "dyn", "extern", "false", "true",
+                 "return", "static", "super", "unsafe", "Self", "abstract", "become", "box", "do", "final",
+                 "macro", "override", "priv", "typeof", "unsized", "virtual", "yield", "try", "gen"}
+
+
+def corpus_locals(names, first_tid):
+    """Traits whose parameters are NAMED like the identifiers the macro's expansion uses for its own
+    locals (hygiene): each name once as the only `&str` parameter of a regular method (all three call
+    forms), and again, with the other types, in groups of three in regular / streaming / oneway
+    methods. The value on the wire must be the caller's."""
+    names = [n for n in dict.fromkeys(list(names) + LOCAL_LIKE)
+             if re.fullmatch(r"[a-z_][a-z0-9_]*", n) and n not in RUST_KEYWORDS and n != "_"]
+    stro = ["opt", ["str"], ""]
+    tys = [["string"], stro, ["u32"], ["str"], ["opt", ["u64"], "core::option::"], ["i64"]]
+
+    def val(t, i, none=False):
+        if t[0] == "opt":
+            return ["none"] if none else ["some", val(t[1], i)]
+        if t[0] in ("str", "string"):
+            return ["s", "caller-%d" % i]
+        return ["n", str(1000 + i)]
+    methods = []
+    for i, n in enumerate(names):
+        methods.append({"name": "take_%d" % i, "rename": None, "more": False, "oneway": False,
+                        "lifetimes": "elided", "bounds": "inline", "attr_order": True,
+                        "out": "out" if i % 2 else "unit",
+                        "params": [{"name": n, "rename": None, "ty": ["str"]}],
+                        "calls": [[["s", "Ping"]], [["s", "caller-%d" % i]]]})
+    for g in range(0, len(names), 3):
+        grp = names[g:g + 3]
+        ps = [{"name": n, "rename": None, "ty": tys[(g + j) % len(tys)]} for j, n in enumerate(grp)]
+        kind = (g // 3) % 3
+        methods.append({"name": "group_%d" % g, "rename": None, "more": kind == 1, "oneway": kind == 2,
+                        "lifetimes": "elided", "bounds": "inline", "attr_order": True,
+                        "out": "unit" if kind == 2 else "out", "params": ps,
+                        "calls": [[val(p["ty"], g + j) for j, p in enumerate(ps)],
+                                  [val(p["ty"], g + j, none=True) for j, p in enumerate(ps)]]})
+    traits = []
+    for k in range(0, len(methods), 6):
+        tid = first_tid + len(traits)
+        traits.append({"tid": tid, "trait": "T%dProxy" % tid, "iface": "org.example.Registry%d" % tid,
+                       "attr": "lit", "methods": methods[k:k + 6]})
+    return traits
 
 
 def gen_corpus(rng, ntraits, ncalls):
